@@ -175,6 +175,11 @@ def run(chk):
         plans.append((objs, files, k % 5 == 4, CS.random_history(rng, pool, hl, k % 5 == 4), False))
     for (label, backed, reqs, oracle_only) in CS.scenarios():
         plans.append(([], [], backed, reqs, False, not oracle_only))
+    # valid replacements that change only the attributes behind `tok` (description, semanticId, supplementalSemanticIds)
+    # of a submodel / an element / nested children, over every pair of semantics classes: none of them may be refused,
+    # crash, or leave the target half-updated
+    for k in range(8 if not full else 40):
+        plans.append(([], [], k % 2 == 1, CS.tok_history(rng, 24), False))
     n = run_cases(chk, srv, ex, plans, "C11", model=model)
     chk.cov["requests_compared_with_model"] = n
     chk.samples = [{"request": f"{r['method']} {H.url_of(r)}", "class": r["cls"]} for r in rng.sample(mx_run, 6)]
